@@ -268,6 +268,22 @@ type atStmt struct {
 	Args  []tval            `json:"args,omitempty"`
 	Table string            `json:"table"`
 	Feat  map[string]string `json:"features"`
+	// the program expects this statement to fail and carries on after it (insert, on duplicate do something else)
+	Tolerated bool `json:"failure_tolerated,omitempty"`
+}
+
+// atGenDuplicateInsert: a single-row INSERT of a row that exists already (bound arguments): fails with a duplicate key.
+func atGenDuplicateInsert(r *vc.Rand, t *atTable) atStmt {
+	row := t.Rows[r.Intn(len(t.Rows))]
+	var cols, ph []string
+	var args []tval
+	for ci, c := range t.Def.Cols {
+		cols = append(cols, c.Name)
+		ph = append(ph, "?")
+		args = append(args, tvOf(row[ci]))
+	}
+	return atStmt{Kind: "insert", Table: t.Name, SQL: fmt.Sprintf("insert into %s (%s) values (%s)", t.Name, strings.Join(cols, ", "), strings.Join(ph, ", ")), Args: args, Tolerated: true,
+		Feat: map[string]string{"stmt": "insert-duplicate-key", "params": "true", "rows": "1"}}
 }
 
 func pkWhere(t *atTable, row []interface{}, useParams bool) (string, []tval) {
@@ -890,7 +906,7 @@ func (c *atCase) steps(dbName string) []gtxStep {
 			}
 			// like application code: a failed statement ends the business function with that error (an open local
 			// transaction is rolled back by the interpreter's cleanup)
-			out = append(out, gtxStep{Op: op, DB: dbName, SQL: s.SQL, Args: s.Args, StopOnErr: !g.KeepGoing})
+			out = append(out, gtxStep{Op: op, DB: dbName, SQL: s.SQL, Args: s.Args, StopOnErr: !g.KeepGoing && !s.Tolerated})
 		}
 		if g.Explicit {
 			out = append(out, gtxStep{Op: "commit", StopOnErr: true})
